@@ -622,6 +622,9 @@ if z3 is not None:
             FA([s, i, x, j], I(A(0 <= j, j < f_len(s)),
                               f_at(f_update(s, i, x), j) == z3.If(j == i, x, f_at(s, j))),
                patterns=[f_at(f_update(s, i, x), j)]),
+            FA([s, i, x, j], I(A(0 <= i, i < f_len(s), 0 <= j, j <= f_len(s)),
+                              f_prefix(f_update(s, i, x), j) == f_prefix(s, j) + z3.If(i < j, x - f_at(s, i), 0)),
+               patterns=[f_prefix(f_update(s, i, x), j)]),
             # concat
             FA([s, u], f_len(f_concat(s, u)) == f_len(s) + f_len(u), patterns=[f_concat(s, u)]),
             FA([s, u, j], I(A(0 <= j, j < f_len(s) + f_len(u)),
